@@ -290,7 +290,7 @@ def declarator : Nat → Toks → Res (Option Declarator × Toks)
 /-- `Parser.nested_namespace`: `{ :: ID }*` after the first name -/
 def nestedNs : Sym → List Str → Toks → Res (Sym × List Str × Toks)
   | sym, nested, t :: ts =>
-    if t.typ = .NAMESPACE then
+    if t.typ = .SCOPE then
       match ts with
       | t2 :: ts2 =>
         if t2.typ = .ID then
@@ -494,9 +494,12 @@ def paramList (env : Env) : Nat → Toks → Res (List Decl × Toks)
       | (true, ts2) =>
         match have? .VARARG ts2 with
         | (true, _) => .reject "varargs"           -- NotImplementedError, a RuntimeError
-        | (false, _) => do
-          let (ds, ts3) ← paramList env n ts2
-          .ok (d :: ds, ts3)
+        | (false, _) =>
+          match peekTyp ts2 with
+          | some .RPAREN => .reject "Expected a parameter after ',', found RPAREN"
+          | _ => do
+            let (ds, ts3) ← paramList env n ts2
+            .ok (d :: ds, ts3)
       | (false, _) => do
         let (_, ts3) ← mustbe .RPAREN ts1
         .ok ([d], ts3)
